@@ -1684,6 +1684,7 @@ class SoftAbsRegularizedPositiveDefiniteMatrix(
             raise ValueError(msg)
         self._softabs_coeff = softabs_coeff
         self.unreg_eigval, eigvec = nla.eigh(symmetric_array)
+        self.unreg_eigval.flags.writeable = False
         eigval = self.softabs(self.unreg_eigval)
         super().__init__(eigvec, eigval)
 
@@ -1718,7 +1719,10 @@ class SoftAbsRegularizedPositiveDefiniteMatrix(
     @property
     def grad_log_abs_det(self) -> NDArray:
         grad_eigval = self.grad_softabs(self.unreg_eigval) / self.eigval
-        return EigendecomposedSymmetricMatrix(self.eigvec, grad_eigval).array
+        # Formed directly rather than via an EigendecomposedSymmetricMatrix object as
+        # values in grad_eigval may be zero (at zero eigenvalues of the original matrix)
+        eigvec = self.eigvec.array
+        return (eigvec * grad_eigval) @ eigvec.T
 
     def grad_quadratic_form_inv(self, vector: NDArray) -> NDArray:
         num_j_mtx = self.eigval[:, None] - self.eigval[None, :]
@@ -1729,7 +1733,7 @@ class SoftAbsRegularizedPositiveDefiniteMatrix(
         # by rounding error so use its limit, the derivative of softabs, instead
         abs_eigval = np.abs(self.unreg_eigval)
         is_close = np.abs(den_j_mtx) <= 1e-6 * (
-            1 + abs_eigval[:, None] + abs_eigval[None, :]
+            1 / self._softabs_coeff + abs_eigval[:, None] + abs_eigval[None, :]
         )
         grad_eigval = self.grad_softabs(self.unreg_eigval)
         j_mtx = np.where(
